@@ -387,3 +387,125 @@ class EvaluateHinted(Contract):
         S.ensures(table_inv(S), 'table')
         for p in cache_inv(S, inst=[S.sk(0)]):
             S.ensures(p, 'cache')
+
+
+# ------------------------------------------------------------------------------------------------ C11 / C16: public (re)initialisation paths
+def reinit_post(S):
+    """what property C11/C16 need from every (re)initialisation path: verdict, contents, and no ready flag kept"""
+    D = S.cfg['DIM']
+    bp = S.v('breakpoints')
+    acc = accept_cond(S)
+    S.ensures(S.is_initialized_.eq(acc), 'accept_iff')
+    S.ensures(implies(mk_not(acc), S.num_segments_.eq(0) & S.num_coeffs_.eq(0) & S.v('breakpoints_').size().eq(0)), 'rejected_is_empty')
+    S.ensures(implies(acc, S.num_segments_.eq(bp.size() - 1) & S.num_coeffs_.eq(S.num_coefficients)), 'accepted_counts')
+    for j, p in enumerate(same_contents_vec(S, S.v('breakpoints_'), bp)):
+        S.ensures(_under(acc, p), 'accepted_breakpoints_%d' % j)
+    for j, p in enumerate(same_contents_mat(S, S.v('coefficients_'), S.v('coefficients'), D)):
+        S.ensures(_under(acc, p), 'accepted_coefficients_%d' % j)
+    S.ensures(mk_not(S.derivative_coeffs_ready_), 'coeff_cache_invalidated')
+    S.ensures(mk_not(S.derivative_factor_table_ready_), 'factor_table_invalidated')
+
+
+def sizes_sane(S):
+    bp = S.v('breakpoints')
+    return (bp.size() >= 0) & (bp.size() <= 1 << 24) & (S.v('coefficients').R >= 0) & (S.num_coefficients >= -(1 << 20)) & (S.num_coefficients <= 1 << 20)
+
+
+@register
+class Update(Contract):
+    key = 'PPolyND.update'
+
+    def spec(self, S):
+        S.requires(sizes_sane(S), 'sizes_sane')
+        S.assigns(*[S.v(x) for x in PP_STATE])
+        reinit_post(S)
+
+
+@register
+class Ctor3(Contract):
+    key = 'PPolyND.ctor3'
+
+    def applies(self, m, nparams):
+        return nparams == 3
+
+    def spec(self, S):
+        # parameter of the constructor is called `order`
+        S.ns['num_coefficients'] = S.ns['order']
+        S.requires(sizes_sane(S), 'sizes_sane')
+        S.assigns(*[S.v(x) for x in PP_STATE])
+        reinit_post(S)
+
+
+@register
+class Ctor0(Contract):
+    key = 'PPolyND.ctor0'
+
+    def applies(self, m, nparams):
+        return nparams == 0
+
+    def spec(self, S):
+        S.assigns(*[S.v(x) for x in PP_STATE])
+        S.ensures(mk_not(S.is_initialized_) & S.num_segments_.eq(0) & S.num_coeffs_.eq(0), 'empty')
+        S.ensures(mk_not(S.derivative_coeffs_ready_) & mk_not(S.derivative_factor_table_ready_), 'flags_clear')
+        S.ensures(S.v('breakpoints_').size().eq(0), 'no_breakpoints')
+
+
+@register
+class InvalidateDerivativeCaches(Contract):
+    key = 'PPolyND.invalidateDerivativeCaches'
+
+    def spec(self, S):
+        S.assigns(S.v('derivative_coeffs_'), S.v('derivative_coeffs_ready_'), *[S.v(x) for x in TABLE_STATE])
+        S.ensures(mk_not(S.derivative_coeffs_ready_) & mk_not(S.derivative_factor_table_ready_), 'flags_clear')
+
+
+@register
+class EnsureDerivativeCoefficients(Contract):
+    key = 'PPolyND.ensureDerivativeCoefficients'
+
+    def spec(self, S):
+        S.requires(ppoly_shape(S), 'shape')
+        S.requires(coeff_shape(S), 'coeff_rows')
+        S.requires(table_inv(S), 'table_inv')
+        for p in cache_inv(S):
+            S.requires(p, 'cache_inv')
+        S.assigns(S.v('derivative_coeffs_'), S.v('derivative_coeffs_ready_'), *[S.v(x) for x in TABLE_STATE])
+        S.ensures(S.derivative_coeffs_ready_, 'ready')
+        S.ensures(table_inv(S), 'table')
+        for p in cache_inv(S):
+            S.ensures(p, 'cache')
+
+
+# ------------------------------------------------------------------------------------------------ C20: sampling helpers and factories
+EPS_END = Fraction(1, 10 ** 6)
+
+
+@register
+class GenerateTimeSequence(Contract):
+    key = 'PPolyND.generateTimeSequence'
+    nparams = 3
+
+    def spec(self, S):
+        S.i2r_axioms()
+        s, e, dt = S.start_t, S.end_t, S.dt
+        res = S.v('result')
+        f = lambda k: E.idx('I2R', k, REAL)
+        S.requires(dt > 0, 'positive_step')
+        S.requires(e >= s, 'interval_not_reversed')
+        S.requires((e - s) < dt * Fraction(1 << 24), 'step_count_fits')     # floor(duration/dt) is converted to int
+        S.i2r_const(1 << 24)
+        S.assigns()
+        n = res.size()
+        S.ensures(n >= 1, 'non_empty')
+        S.ensures(res.at(0).eq(s), 'starts_at_start')
+        S.ensures(S.forall(0, n - 1, lambda i: res.at(i).eq(s + f(i) * dt)), 'advances_by_step')
+        S.ensures(S.forall(0, n - 1, lambda i: res.at(i) < res.at(i + 1)), 'strictly_increasing')
+        S.ensures(S.forall(0, n, lambda i: res.at(i) <= e), 'no_sample_beyond_end')
+        S.ensures((res.at(n - 1) <= e) & (e - res.at(n - 1) <= EPS_END), 'ends_within_1e-6_of_end')
+        S.terms(0, -1, S.sk(0) + 1)
+        seq = S.local('time_sequence') if S.mode == 'verify' else None
+        S.loop(0, inv=lambda L: [
+            ('range', (L.i >= 0) & (L.i <= L.num_steps + 1)),
+            ('size', L.time_sequence.size().eq(L.i)),
+            ('values', S.forall(0, L.i, lambda j: L.time_sequence.at(j).eq(s + f(j) * dt))),
+        ], variant=lambda L: L.num_steps + 1 - L.i, terms=lambda L: [L.i, L.i - 1, L.num_steps, L.num_steps - 1, L.num_steps + 1])
